@@ -2,12 +2,13 @@
 # usage: tools/run_all.sh <tier> [seed...]   - runs every check, prints one line per check
 tier=${1:-quick}; shift
 seeds=${@:-0}
-cd /verif
+here=$(cd "$(dirname "$0")/.." && pwd)
+cd "$here"
 for seed in $seeds; do
   for i in $(seq -w 1 20); do
     p=C$i
     s=$(date +%s.%N)
-    out=$(VERIF_SEED=$seed PYTHONHASHSEED=0 PYTHONDONTWRITEBYTECODE=1 PYTHONPATH=${VERIF_REPO:-/repo}:/verif /venv/bin/python check.py $p --tier $tier 2>&1)
+    out=$(VERIF_SEED=$seed PYTHONHASHSEED=0 PYTHONDONTWRITEBYTECODE=1 PYTHONPATH=${VERIF_REPO:-/repo}:$here /venv/bin/python check.py $p --tier $tier 2>&1)
     rc=$?
     e=$(date +%s.%N)
     printf "%s seed=%s rc=%s %.1fs %s\n" $p $seed $rc $(echo "$e - $s" | bc) "$(echo "$out" | tail -1 | cut -c1-90)"
